@@ -61,7 +61,7 @@ def resolve(dotted: str):
 
 ALLOWED_ROOTS = {
     "builtins", "datetime", "decimal", "fractions", "numbers", "uuid", "pathlib", "re", "enum",
-    "collections", "typing", "types", "sqlite3", "ipaddress", "inspect", "typing_extensions", "abc",
+    "collections", "typing", "types", "sqlite3", "ipaddress", "inspect", "typing_extensions", "abc", "functools",
 }  # fmt: skip
 
 
@@ -98,6 +98,7 @@ CATALOGUE = [
     "types.MappingProxyType", "types.GeneratorType",
     "collections.abc.Iterator", "collections.abc.Generator", "collections.abc.Iterable",
     "collections.abc.Sequence", "collections.abc.Mapping", "collections.abc.Set", "collections.abc.Collection",
+    "functools.partial",  # a plain class whose *instances* are callable (defines __call__)
 ]  # fmt: skip
 
 DATETIME_FIELDS = {
